@@ -22,7 +22,7 @@ RULE = ('40% handle histories: 2..4 disk files (all NETCDF3_CLASSIC or all NETCD
         'repeated) / drop+gc.collect / deferred drop / gc.collect, streams random, close-reopen-finalise, at-most-one-close-per-object, '
         'gc-heavy; after every step each referenced object is read (own data / other file\'s data / raises). 60% operation cases: '
         'input file(s) with dims t,z,y,x (+TFLAG or time variable, float or integer, uniform or irregular coordinate, optional bounds '
-        'variable, optional masked variable), in memory or disk-backed, and one of 30 calls (copy, subsetVariables, sliceDimensions x3, '
+        'variable, optional masked variable M; data variables A, B plain / masked with 2-3 masked cells / masked with mask=nomask), in memory or disk-backed, and one of 42 calls (mask() with each keyword incl. where= / mask=+dims= / where as variable / by shape / coords=True; copy, subsetVariables, sliceDimensions x3, '
         'applyAlongDimensions, renameVariable, renameDimension, insertDimension, reorderDimensions, removeSingleton, stack, mask, +, '
         'eval x3, getvarpnc, slice_dim, getTimes x2, date2num, time2idx, val2idx nearest/bounds, repr, dump, save). Non-trivial = a history '
         'with a close of an already closed object, or an operation whose inputs are memory-backed.')
@@ -82,19 +82,27 @@ def _gen_hist(rng, tier):
 OPS_CLEAN = ['copy', 'subset', 'slice-slice', 'slice-int', 'slice-list', 'apply-mean', 'renvar', 'rendim', 'insdim', 'reorder',
              'rmsingle', 'stack', 'mask', 'add', 'eval-expr', 'gettimes', 'gettimes-bounds', 'date2num', 'time2idx', 'val2idx-nearest',
              'repr', 'dump', 'save']
+# mask() with each keyword; where= / mask= as a boolean array of the shape of A, with dims= naming A's dimensions, carrying a
+# .dimensions attribute, or bare (matched by shape)
+MASK_OPS = ['mask-greater', 'mask-greater_equal', 'mask-less', 'mask-less_equal', 'mask-values', 'mask-equal', 'mask-invalid',
+            'mask-where-dims', 'mask-mask-dims', 'mask-where-var', 'mask-where-shape', 'mask-where-coords']
+OPS_CLEAN = OPS_CLEAN + MASK_OPS
 OPS_DEFECT = ['eval-name', 'eval-view', 'getvarpnc', 'slice_dim', 'gettimes', 'gettimes-bounds', 'val2idx-bounds', 'val2idx-bounds', 'time2idx-bounds']
-DISK_OK = ['copy', 'subset', 'slice-slice', 'slice-int', 'apply-mean', 'renvar', 'insdim', 'rmsingle', 'mask', 'gettimes', 'gettimes-bounds',
+DISK_OK = MASK_OPS + ['copy', 'subset', 'slice-slice', 'slice-int', 'apply-mean', 'renvar', 'insdim', 'rmsingle', 'mask', 'gettimes', 'gettimes-bounds',
            'date2num', 'time2idx', 'val2idx-nearest', 'val2idx-bounds', 'repr', 'dump', 'save', 'getvarpnc', 'time2idx-bounds']
 
 
 def _gen_op(rng, tier):
     backing = 'disk' if rng.random() < 0.3 else 'mem'
     op = rng.choice(OPS_DEFECT if rng.random() < (0.6 if tier == 'search' else 0.4) else OPS_CLEAN)
+    if tier == 'search' and rng.random() < 0.3:
+        op = rng.choice(MASK_OPS)
     if backing == 'disk' and op not in DISK_OK:
         backing = 'mem'
     spec = dict(t=rng.randint(2, 3), z=rng.randint(1, 2), y=rng.randint(2, 3), x=rng.randint(3, 4),
                 xdtype=rng.choice(['d', 'd', 'f', 'i']), xuniform=rng.random() < 0.6, xbounds=rng.random() < 0.3,
                 timemode=rng.choice(['time', 'tflag', 'tflag']), m635=rng.random() < 0.4, masked=rng.random() < 0.3,
+                vmask=rng.choice(['plain', 'plain', 'cells', 'cells', 'cells', 'nomask']),
                 seed=rng.randint(0, 10 ** 6))
     if op in ('time2idx', 'date2num', 'time2idx-bounds'):
         spec['timemode'] = 'time'
@@ -231,9 +239,21 @@ def _mkfile(spec, which, backing, tmp):
             tf[0, :, 0] = -635
         tf.units = '<YYYYDDD,HHMMSS>'
         f.SDATE = 2020001; f.STIME = 0; f.TSTEP = 10000
+    vmask = spec.get('vmask', 'plain')
     for name in ('A', 'B'):
-        a = f.createVariable(name, 'f', ('t', 'z', 'y', 'x'))
-        a[:] = rs.permutation(nt * nz * ny * nx).reshape(nt, nz, ny, nx) + (1000 if name == 'B' else 0)
+        vals = (rs.permutation(nt * nz * ny * nx).reshape(nt, nz, ny, nx) + (1000 if name == 'B' else 0)).astype('f')
+        if vmask == 'plain':
+            a = f.createVariable(name, 'f', ('t', 'z', 'y', 'x'))
+            a[:] = vals
+        else:
+            # PseudoNetCDFMaskedVariable; 'cells': a real mask array with 2..3 masked cells, 'nomask': mask is np.ma.nomask
+            a = f.createVariable(name, 'f', ('t', 'z', 'y', 'x'), fill_value=-999.)
+            if vmask == 'cells':
+                mk = np.zeros(vals.shape, dtype=bool)
+                mk.flat[rs.choice(vals.size, size=min(3, max(2, vals.size // 6)), replace=False)] = True
+                a[:] = np.ma.masked_where(mk, vals)
+            else:
+                a[:] = vals
         a.units = 'ppb'; a.long_name = name
     if spec['masked']:
         m = f.createVariable('M', 'f', ('t', 'y', 'x'), fill_value=-999.)
@@ -322,6 +342,7 @@ def _op_child(case, tmp):
     before = [_snap(fi) for fi in ins]
     t0 = datetime(2000, 1, 1, 1, tzinfo=timezone.utc)
     res, raised = None, None
+    ins_extra = []          # non-file arguments (the where= array): must come back unchanged as well
     sink = io.StringIO()
     try:
         with contextlib.redirect_stdout(sink):
@@ -337,7 +358,25 @@ def _op_child(case, tmp):
             elif op == 'reorder': res = f.reorderDimensions(('y', 'x'), ('x', 'y'))
             elif op == 'rmsingle': res = f.removeSingleton()
             elif op == 'stack': res = f.stack(g, 't')
-            elif op == 'mask': res = f.mask(greater=5)
+            elif op in ('mask', 'mask-greater'): res = f.mask(greater=5)
+            elif op == 'mask-greater_equal': res = f.mask(greater_equal=5)
+            elif op == 'mask-less': res = f.mask(less=5)
+            elif op == 'mask-less_equal': res = f.mask(less_equal=5)
+            elif op == 'mask-values': res = f.mask(values=3)
+            elif op == 'mask-equal': res = f.mask(equal=3)
+            elif op == 'mask-invalid': res = f.mask(invalid=True)
+            elif op.startswith('mask-where') or op == 'mask-mask-dims':
+                av = f.variables['A']
+                wh = (np.arange(int(np.prod(av.shape))).reshape(av.shape) % 3) == 1
+                ins_extra.append(wh)
+                if op == 'mask-where-dims': res = f.mask(where=wh, dims=tuple(av.dimensions))
+                elif op == 'mask-mask-dims': res = f.mask(mask=wh, dims=tuple(av.dimensions))
+                elif op == 'mask-where-shape': res = f.mask(where=wh)
+                elif op == 'mask-where-coords': res = f.mask(where=wh, dims=tuple(av.dimensions), coords=True)
+                else:
+                    from PseudoNetCDF.core._variables import PseudoNetCDFVariable
+                    whv = PseudoNetCDFVariable(f, 'wh', 'b', tuple(av.dimensions), values=wh.astype('i1'))
+                    res = f.mask(where=whv)
             elif op == 'add': res = f + g
             elif op == 'eval-expr': res = f.eval('C = A * 2')
             elif op == 'eval-name': res = f.eval('C = A')
@@ -361,6 +400,9 @@ def _op_child(case, tmp):
         raised = type(e).__name__ + ': ' + str(e)[:120]
     after = [_snap(fi) for fi in ins]
     mutated = _diff(ins, before, after, base)
+    for wh in ins_extra:
+        if not np.array_equal(wh, (np.arange(wh.size).reshape(wh.shape) % 3) == 1):
+            mutated = sorted(set(mutated + [2000]))     # 2000: an array argument was modified
     aliased, later = [], []
     if res is not None and hasattr(res, 'variables'):
         inarr = []
@@ -374,10 +416,11 @@ def _op_child(case, tmp):
             if not isinstance(ov, np.ndarray):
                 continue
             for bid, iv in inarr:
+                # data buffers and mask buffers are checked separately (a result may own its data but share the mask)
                 sh = np.shares_memory(np.ma.getdata(ov), np.ma.getdata(iv))
                 mo, mi = np.ma.getmask(ov), np.ma.getmask(iv)
-                if not sh and mo is not np.ma.nomask and mi is not np.ma.nomask:
-                    sh = np.shares_memory(mo, mi)
+                if mo is not np.ma.nomask and mi is not np.ma.nomask and np.shares_memory(mo, mi):
+                    sh = True
                 if sh:
                     aliased.append(bid)
         for ov in outs:
@@ -385,6 +428,9 @@ def _op_child(case, tmp):
                 if ov.dtype.kind in 'fiu':
                     ov[...] = np.ma.getdata(ov[...]) + 7
                     if isinstance(ov, np.ma.MaskedArray):
+                        mo = np.ma.getmask(ov)
+                        if mo is not np.ma.nomask:
+                            mo[...] = ~mo            # write straight into the result's mask buffer
                         ov.mask = True
             except Exception:
                 pass
@@ -469,7 +515,7 @@ def shrink(case):
                 yield dict(case, steps=cand)
         return
     sp = case['spec']
-    for k, v in (('masked', False), ('xbounds', False), ('z', 1), ('t', 2), ('y', 2), ('x', 3)):
+    for k, v in (('masked', False), ('vmask', 'plain'), ('xbounds', False), ('z', 1), ('t', 2), ('y', 2), ('x', 3)):
         if sp.get(k) != v:
             yield dict(case, spec=dict(sp, **{k: v}))
     if case['backing'] == 'disk':
